@@ -1555,8 +1555,10 @@ func (r *raft) removeNode(id uint64) {
 	}
 
 	// The quorum size is now smaller, so see if any pending entries can
-	// be committed.
-	if r.maybeCommit() {
+	// be committed. Only the leader may do that: a follower that replays old
+	// configuration changes after a restart has no valid match indexes and
+	// would commit its own unreplicated tail.
+	if r.state == StateLeader && r.maybeCommit() {
 		r.bcastAppend()
 	}
 	// If the removed node is the leadTransferee, then abort the leadership transferring.
